@@ -530,7 +530,8 @@ class Eval:
         if not init:
             return Unknown('constant without initialiser ' + name)
         if t[0] == 'fp':
-            return Fp('opaque', 'constant ' + name)
+            v = self.ev(init[0])
+            return v if isinstance(v, Fp) and v.kind == 'const' else Fp('opaque', 'constant ' + name)
         return self.cast_to(self.ev(init[0]), t)
 
     def union_default(self, rname):
@@ -983,6 +984,10 @@ class Eval:
         name, sig = self.callee_name(n)
         args = n['inner'][1:]
         cands = [f for f in self.w.inline.get(name, []) if f['type'].get('qualType') == sig] if name else []
+        if not cands and name:
+            # the declaration referred to may print its type differently (typedef spelling): fall back to name + arity
+            ar = [f for f in self.w.inline.get(name, []) if sum(1 for p_ in f.get('inner', []) if p_.get('kind') == 'ParmVarDecl') == len(args)]
+            cands = ar if len(ar) == 1 else []
         if not cands:
             raise Untranslatable('call to %s' % name)
         r = self.inline_call(cands[0], args)
@@ -1051,7 +1056,7 @@ class Eval:
         m = DBL.fullmatch(mname)
         if self.mode == 'set':
             if self.tail:
-                raise Untranslatable('internal: add after tail')
+                return Unknown('void')        # behind a variable-length item: only the prefix is translated
             if mname in ADD_INT:
                 v = self.ev(args[0])
                 w = ADD_INT[mname]
@@ -1073,6 +1078,10 @@ class Eval:
                     num, e = res_pair(p.arg)
                     self.scaled[v.arg] = dict(off=len(self.payload), w=w, signed=signed, num=num, exp=e, text=str(p.arg))
                     self.payload += [('p', v.arg, i) for i in range(8 * w)]
+                elif isinstance(v, Fp) and v.kind == 'const' and v.arg == Decimal('-1E+9') and len(ex) == 2:
+                    # the constant N2kDoubleNA with the default UndefVal: the field's "not available" pattern (C06)
+                    na = (1 << (8 * w - 1)) - 1 if signed else (1 << (8 * w)) - 1
+                    self.payload += [(na >> i) & 1 for i in range(8 * w)]
                 else:
                     self.notes.append('%s: value or precision outside the fragment' % mname)
                     self.payload += [None] * (8 * w)
@@ -1933,6 +1942,36 @@ def collect(src_dir):
     seen = set()
     for w, nonpure in nonpure_by_world:
         pair_wrappers(w, nonpure, results, stats, seen)
+    # every remaining public setter overload / alias of the headers (pure forwarders included) gets a setter layout of
+    # its own, so that C15 can compare EVERY way of producing a listed PGN with the published layout
+    used = {id(R['S'].fn) for R in results if R.get('S') is not None}
+    seen_s = set()
+    for w, _np in nonpure_by_world:
+        main_ids = {id(f) for f in w.funcs}
+        for name in sorted(w.inline):
+            if not re.match(r'SetN2k', name):
+                continue
+            for fn in w.inline[name]:
+                sig = (name, fn['type'].get('qualType'))
+                if id(fn) in main_ids or id(fn) in used or sig in seen_s:
+                    continue
+                seen_s.add(sig)
+                if any(R.get('S') is not None and (R['S'].fn['name'], R['S'].fn['type'].get('qualType')) == sig for R in results):
+                    continue
+                probe, err = translate_function(w, fn, 'set')
+                pgn = probe.pgn if probe is not None and probe.pgn is not None else pgn_of_name(name)
+                if pgn is None:
+                    stats.setdefault('wrappers_not_translated', []).append('%s: %s' % (name, err or 'no PGN'))
+                    continue
+                counter = stats.setdefault('_wcounter', {})
+                counter[pgn] = counter.get(pgn, 0) + 1
+                rs = build_pairs(w, '%dw%d' % (pgn, counter[pgn]), fn, None, stats)
+                for r_ in rs:
+                    r_['notes'].insert(0, 'public setter overload / alias wrapper %s (setter layout for C15)' % name)
+                    r_['wrapper'] = True
+                results.extend(rs)
+                stats['wrapper_setters'] = stats.get('wrapper_setters', 0) + 1
+    stats.pop('_wcounter', None)
     return results, stats
 
 
@@ -1987,7 +2026,7 @@ def pair_wrappers(world, nonpure, results, stats, seen):
     def pnames(fn):
         return {p.get('name', '').lower() for p in fn.get('inner', []) if p.get('kind') == 'ParmVarDecl' and 'tN2kMsg' not in p['type'].get('qualType', '')}
     done = set()
-    counter = {}
+    counter = stats.setdefault('_wcounter', {})
     for wf in nonpure:
         sig = (wf['name'], wf['type'].get('qualType'))
         if sig in seen:
@@ -2079,6 +2118,10 @@ def emit_lean(results, gen_dir, stats, enum_worlds=None):
         if R.get('variant_of'):
             L.append('  variantOf := "%s"' % R['variant_of'])
             L.append('  setCond := %s' % lean_cond(R.get('set_cond'), idx))
+        if R.get('S') is not None:
+            L.append('  setterKey := "%s/%d"' % (R['setter_name'], sum(1 for p_ in R['S'].params if p_['role'] != 'msg')))
+        if R.get('wrapper'):
+            L.append('  isWrapper := true')
         L.append('  intBits := [%s]' % ', '.join(str(R['info'][n_]['sfield']['bits'] if R['info'][n_].get('sfield', {}).get('kind') in ('sint', 'uint') else 0) for n_ in names))
         L.append('')
         pair_names.append(nm)
@@ -2266,7 +2309,8 @@ def emit_glue(results, path, worlds):
          'struct Variant { const char *id; bool (*cond)(const Val *); const int *guard; const int *modelOut;',
          '  bool modelSetter, modelParser; int modelPrefixBytes; const int *unkBytes; int nUnk; };',
          'struct Pair { const char *id; unsigned long pgn; const Field *f; int nf;',
-         '  void (*set)(tN2kMsg &, const Val *); bool (*parse)(const tN2kMsg &, Val *); const Variant *v; int nv; };', '']
+         '  void (*set)(tN2kMsg &, const Val *); bool (*parse)(const tN2kMsg &, Val *); const Variant *v; int nv;',
+         '  const char *setterKey; bool isWrapper; };', '']
     table, skipped = [], []
     for R in results:
         S, P = R.get('S'), R.get('P')
@@ -2323,8 +2367,8 @@ def emit_glue(results, path, worlds):
                 fd = S.fields[S.fieldidx[nm]]
                 set_lines.append('  %s u%d; u%d.%s = (%s)v[%d].i;' % (t[1], i, i, fd['member'], w.records[t[1]]['fields'][0][1]['qualType'], i))
                 set_args.append('u%d' % i)
-            elif re.match(r'const char \*$', q.strip()):
-                set_args.append('v[%d].s.c_str()' % i)
+            elif re.match(r'(const )?char \*$', q.strip()):
+                set_args.append('(%s)v[%d].s.c_str()' % (q.strip(), i))
             else:
                 problems.append('setter parameter %s of type %s' % (nm, q))
         # ---- parser call
@@ -2462,8 +2506,9 @@ def emit_glue(results, path, worlds):
                 V['id'], ('cond_' + vid) if V.get('variant_of') else 'nullptr', vid, vid, 'true' if V['setter_ok'] else 'false',
                 'true' if V['parser_ok'] else 'false', (len(V['sbits']) // 8) if V.get('setter_tail') else -1, vid, len(unk)))
         H.append('static const Variant v_%s[] = {\n%s\n};' % (cid, ',\n'.join(vrows)))
-        table.append('  {"%s", %dUL, f_%s, %d, set_%s, %s, v_%s, %d}' % (
-            R['id'], R['pgn'] or 0, cid, len(names), cid, ('parse_' + cid) if P else 'nullptr', cid, len(vrows)))
+        table.append('  {"%s", %dUL, f_%s, %d, set_%s, %s, v_%s, %d, "%s/%d", %s}' % (
+            R['id'], R['pgn'] or 0, cid, len(names), cid, ('parse_' + cid) if P else 'nullptr', cid, len(vrows),
+            R['setter_name'], sum(1 for p_ in S.params if p_['role'] != 'msg'), 'true' if R.get('wrapper') else 'false'))
         H.append('')
     # enumerators by NAME, valued by the compiler from the real headers (for the C15 code-point oracle)
     used_enums, rows = set(), []
